@@ -380,6 +380,26 @@ impl Run {
                 Out::Panic(_) => st.class("abort_in_point"),
             }
         }
+        // a ready channel that was given a permanent id is the same channel under that id: the
+        // keys it shows there are the keys of its initial id, before and after a restart
+        if self.chs[ci].ready && self.chs[ci].perm {
+            let mut v = b"c18/permanent/".to_vec();
+            v.extend_from_slice(id0.as_slice());
+            let perm_id = ChannelId::new(&Sha256::hash(&v).to_byte_array());
+            match call(|| node.with_channel_base(&perm_id, |b| Ok((b.get_channel_basepoints(), b.get_per_commitment_point(0))))) {
+                Out::Ok((pk, p0)) => {
+                    st.class("observed_through_permanent_id");
+                    self.record(st, ctx, ci, Kind::Funding, 0, pk.funding_pubkey.serialize().to_vec())?;
+                    self.record(st, ctx, ci, Kind::Revocation, 0, pk.revocation_basepoint.0.serialize().to_vec())?;
+                    self.record(st, ctx, ci, Kind::Payment, 0, pk.payment_point.serialize().to_vec())?;
+                    if let Ok(p0) = p0 {
+                        self.record(st, ctx, ci, Kind::Point, 0, p0.serialize().to_vec())?;
+                    }
+                }
+                Out::Err(_) => st.class("permanent_id_lookup_refused"),
+                Out::Panic(_) => st.class("abort_in_permanent_id_lookup"),
+            }
+        }
         Ok(())
     }
 
